@@ -422,7 +422,17 @@ void apply(Tree &t, CaseCtx &cx, int op, uint8_t a, uint8_t b, int K, size_t max
         Elem *e = t.mk(key);
         const void *par = nullptr;
         if (op == INS_HINT) {
+            // the out-parameter is documented as [out]: the caller's variable holds whatever it held before (here: a
+            // recognisable non-pointer), and find must store "the parent of the found element (or where it would be located)"
+            static char never_a_node;
+            par = &never_a_node;
             const void *f = t.find(e, &par);
+            CHECK(par != &never_a_node, "C01.find.parent", "%s find(k%d) %s but left the parent out-parameter unwritten", t.tag, key,
+                  f ? "found an element" : "found none");
+            if (f) {
+                struct cstl_bintree_node *fp = t.node((Elem *)f)->p;
+                CHECK(par == (fp ? (const void *)t.elem(fp) : nullptr), "C01.find.parent", "%s find(k%d) reports a parent that is not the found element's parent", t.tag, key);
+            } else if (par) CHECK(t.liveset.count(par) != 0, "C01.find.parent", "%s find(k%d) reports a would-be parent that is not a held element", t.tag, key);
             if (f) CNT("class.hint.found_equal"); else CNT("class.hint.not_found");
             if (par) {
                 bool ok = t.liveset.count(par) != 0;
